@@ -49,19 +49,69 @@ def Graph.done (acc : Graph × List Name) (n : Name) : Graph × List Name :=
         let g' := acc.1.modify s fun x => { x with npred := k }
         if k == 0 then (g', acc.2 ++ [s]) else (g', acc.2)) acc
 
-def staticOrderAux : Nat → Graph → List Name → List Name → List Name
+def staticOrderAuxRef : Nat → Graph → List Name → List Name → List Name
   | 0, _, _, out => out
   | fuel + 1, g, ready, out =>
     if ready.isEmpty then out else
     let (g', next) := ready.foldl Graph.done (g, [])
-    staticOrderAux fuel g' next (out ++ ready)
+    staticOrderAuxRef fuel g' next (out ++ ready)
+
+/-- `tuple(sorter.static_order())`; `none` on a cycle (`CycleError`) — the literal mirror of the
+CPython data structure (one `_NodeInfo` record per node).  The driver cross-checks it against the
+proof-friendly formulation `staticOrder` below on every request. -/
+def staticOrderRef (adds : List (Name × List Name)) : Option (List Name) :=
+  let g : Graph := adds.foldl (fun g a => g.add a.1 a.2) []
+  let ready := (g.filter (·.npred == 0)).map (·.node)
+  let out := staticOrderAuxRef (g.length + 1) g ready []
+  if out.length == g.length then some out else none
+
+
+/-! ## The same algorithm over the edge list (the formulation the theorems are about)
+
+After all `add` calls the sorter's state is determined by the list of edges `(pred, node)` in
+the order the calls made them: `npredecessors(x)` is the number of edges into `x`,
+`successors(x)` the targets of the edges out of `x` in that order, and the nodes are kept in
+first-mention order (`add(n, *ps)` mentions `n`, then `ps`).  While `static_order` runs only the
+predecessor counters change. -/
+
+def edgesOf (adds : List (Name × List Name)) : List (Name × Name) :=
+  adds.flatMap fun a => a.2.map fun p => (p, a.1)
+
+def addNew (ns : List Name) (x : Name) : List Name := if ns.contains x then ns else ns ++ [x]
+
+/-- nodes in first-mention order -/
+def nodesOf (adds : List (Name × List Name)) : List Name :=
+  adds.foldl (fun ns a => (a.1 :: a.2).foldl addNew ns) []
+
+def succsOf (E : List (Name × Name)) (x : Name) : List Name := (E.filter (·.1 == x)).map (·.2)
+
+def npred0 (E : List (Name × Name)) (x : Name) : Nat := E.countP (·.2 == x)
+
+def updNat (f : Name → Nat) (x : Name) (v : Nat) : Name → Nat := fun y => if y = x then v else f y
+
+/-- one decrement of `done`: the successor becomes ready when its counter reaches zero -/
+def decr (acc : (Name → Nat) × List Name) (s : Name) : (Name → Nat) × List Name :=
+  let k := acc.1 s - 1
+  (updNat acc.1 s k, if k == 0 then acc.2 ++ [s] else acc.2)
+
+/-- `done(n)` -/
+def doneNode (E : List (Name × Name)) (acc : (Name → Nat) × List Name) (n : Name) : (Name → Nat) × List Name :=
+  (succsOf E n).foldl decr acc
+
+def staticOrderAux (E : List (Name × Name)) : Nat → (Name → Nat) → List Name → List Name → List Name
+  | 0, _, _, out => out
+  | fuel + 1, np, ready, out =>
+    if ready.isEmpty then out else
+    let r := ready.foldl (doneNode E) (np, [])
+    staticOrderAux E fuel r.1 r.2 (out ++ ready)
 
 /-- `tuple(sorter.static_order())`; `none` on a cycle (`CycleError`). -/
 def staticOrder (adds : List (Name × List Name)) : Option (List Name) :=
-  let g : Graph := adds.foldl (fun g a => g.add a.1 a.2) []
-  let ready := (g.filter (·.npred == 0)).map (·.node)
-  let out := staticOrderAux (g.length + 1) g ready []
-  if out.length == g.length then some out else none
+  let E := edgesOf adds
+  let nodes := nodesOf adds
+  let ready := nodes.filter (fun x => npred0 E x == 0)
+  let out := staticOrderAux E (nodes.length + 1) (npred0 E) ready []
+  if out.length == nodes.length then some out else none
 
 /-- `ode.sort_assignments(assignments, assignments_only=True)`;
 `adds` = (assignment name, its dependency names in iteration order). -/
